@@ -96,3 +96,61 @@ func ZZ_C13_Cleanup() {
 		}
 	}
 }
+
+// ZZ_C09_PowerDiff: after createSignerSetTxs the latest published set differs from the current validator set by
+// at most 5% of normalised power (exact rational arithmetic: 20 * sum|delta| <= 2^32-1).
+func ZZ_C09_PowerDiff() {
+	env := keeper.ZZNewEnv(int64(vrt.Uint64Below("height", 1<<40)), 1000)
+	k, ctx := env.K, env.Ctx
+	k.ZZSetParams(ctx, keeper.ZZDefaultParams())
+	chain := types.ChainID("ethereum")
+	n, pb := 2, uint64(8)
+	if vrt.Thorough() {
+		n, pb = 3, 12
+	}
+	vs := keeper.ZZValidators(env, chain, n, pb)
+	// a previously published set: members among the validators' addresses with arbitrary normalised powers
+	if vrt.Bool("haveLatest") {
+		var signers types.ExternalSigners
+		for i, v := range vs {
+			if vrt.Bool("inLatest" + string(rune('0'+i))) {
+				signers = append(signers, &types.ExternalSigner{Power: vrt.Uint64Below("latestPower"+string(rune('0'+i)), 1<<32), ExternalAddress: v.Ext.Hex()})
+			}
+		}
+		nonce := 1 + vrt.Uint64Below("latestNonce", 1<<56)
+		k.SetLatestSignerSetTxNonce(ctx, chain, nonce)
+		k.SetOutgoingTx(ctx, chain, types.NewSignerSetTx(nonce, 1, signers))
+	}
+	if vrt.Panics(func() { createSignerSetTxs(ctx, chain, k) }) {
+		vrt.Reach("c09.diff.panicked")
+		return // C05
+	}
+	vrt.Reach("c09.diff")
+	latest := k.GetLatestSignerSetTx(ctx, chain)
+	vrt.Assert("c09.diff.published", latest != nil)
+	if latest == nil {
+		return
+	}
+	var cur types.ExternalSigners
+	if vrt.Panics(func() { cur = k.CurrentSignerSet(ctx, chain) }) {
+		return
+	}
+	sum := new(big.Int)
+	seen := map[string]bool{}
+	for _, c := range cur {
+		d := new(big.Int).SetUint64(c.Power)
+		for _, l := range latest.Signers {
+			if l.ExternalAddress == c.ExternalAddress {
+				d.Sub(d, new(big.Int).SetUint64(l.Power))
+			}
+		}
+		seen[c.ExternalAddress] = true
+		sum.Add(sum, d.Abs(d))
+	}
+	for _, l := range latest.Signers {
+		if !seen[l.ExternalAddress] {
+			sum.Add(sum, new(big.Int).SetUint64(l.Power))
+		}
+	}
+	vrt.Assert("c09.diff.within-5-percent", new(big.Int).Mul(sum, big.NewInt(20)).Cmp(big.NewInt(4294967295)) <= 0)
+}
